@@ -551,20 +551,6 @@ def judge(impl, route, name, fields, res, twin_cache, kf):
         finding = (f["id"], f["what"])
     if d.name != name or [tuple(x) for x in d.get_field_tuples()] != [tuple(x) for x in fields]:
         return "the accepted descriptor does not carry the definition it was given", None, info
-    # exec'd source
-    if len(res["sources"]) != 1:
-        return "%d sources were handed to exec for one definition" % len(res["sources"]), None, info
-    kwset = set(keyword.kwlist)
-    tname, tfields, mapping = twin_of(name, fields, kwset)
-    key = (tuple(tfields))
-    if key not in twin_cache:
-        tr = impl.deliver("ctor", tname, tfields)
-        if not tr["accepted"] or len(tr["sources"]) != 1:
-            return None, None, dict(info, twin_failed=True)
-        twin_cache[key] = tr["sources"][0]
-    dev = check_source(res["sources"][0], name, fields, twin_cache[key], mapping)
-    if dev:
-        return "text of the definition changed the structure of the code handed to exec: " + dev, None, info
     # resolved field types
     for f in d.get_all_fields().values():
         t = f.type
@@ -574,6 +560,21 @@ def judge(impl, route, name, fields, res, twin_cache, kf):
                 continue
             if not (isinstance(cls, type) and issubclass(cls, impl.base.FieldType) and cls.__module__.startswith("flow.record.fieldtypes")):
                 return "field type %r resolved to %r outside flow.record.fieldtypes" % (f.typename, cls), None, info
+    # exec'd source: same syntax tree as a benign definition of the same shape, identifiers in the expected places
+    if len(res["sources"]) != 1:
+        return "%d sources were handed to exec for one definition" % len(res["sources"]), None, info
+    kwset = set(keyword.kwlist)
+    tname, tfields, mapping = twin_of(name, fields, kwset)
+    key = (tuple(tfields))
+    if key not in twin_cache:
+        tr = impl.deliver("ctor", tname, tfields)
+        twin_cache[key] = tr["sources"][0] if tr["accepted"] and len(tr["sources"]) == 1 else None
+    if twin_cache[key] is None:
+        return None, finding, dict(info, twin_failed=True)
+    dev = check_source(res["sources"][0], name, fields, twin_cache[key], mapping)
+    if dev:
+        return "text of the definition changed the structure of the code handed to exec: " + dev, None, info
+    info["structure_checked"] = True
     return None, finding, info
 
 
@@ -904,6 +905,11 @@ def run(ctx):
         return
     ctx.coverage["traces_validated_against_impl"] = len(terms) - len(failing)
     _ = n_sound
+    n_struct = len([r for r in recs if r.get("structure_checked")])
+    n_twin_failed = len([r for r in recs if r.get("twin_failed")])
+    if n_twin_failed:
+        ctx.notes.append("%d accepted definitions could not be compared with a benign twin (the twin was refused)" % n_twin_failed)
+    ctx.coverage["exec_sources_structurally_checked"] = n_struct
     ctx.coverage["correspondence"] = dict(
         validators=len(recs), slots=len(acc), exact_source_text=len(src_cases), fieldtype=len(ft_cases),
         exhaustive_lists=len(exh_terms), accepted=len(acc), rejected=len(recs) - len(acc),
